@@ -51,6 +51,8 @@ class BatchifyVC(V.VC):
             return self.bs_none
         # the affinity matrix is recognised by what the expression denotes, not by how the variable is called
         v = st.env.get(node.id) if isinstance(node, ast.Name) else None
+        if v is self.bs_param:                   # a local alias of self.batch_size
+            return self.bs_none
         if src == "affinity_matrix" or (isinstance(v, V.Opaque) and v.tag == "A"):
             return self.aff_none
         raise V.VCError(f"needs contract: {src} is None")
@@ -95,15 +97,24 @@ class BatchifyVC(V.VC):
         self.prove("yield: len(part) <= batch_size", st.assm, part.hi - part.lo <= b)
         self.prove("yield: part within the permutation", st.assm, z3.And(part.lo >= 0, part.hi <= self.n))
         self.prove("yield: part ends at min(cov + batch_size, n)", st.assm, part.hi == V.zmin(st.ghost["cov"] + b, self.n))
+        def is_block(a1):
+            return (isinstance(a1, V.Opaque) and a1.tag == "colgather" and isinstance(a1.a[0], V.Opaque) and a1.a[0].tag == "gather"
+                    and isinstance(a1.a[0].a[0], V.Opaque) and a1.a[0].a[0].tag == "A"
+                    and V._same(a1.a[0].a[1], part) and V._same(a1.a[1], part))
         okblock = False
         cond = None
         if isinstance(ab, tuple) and ab and ab[0] == "ite":
             _, cond, a1, a2 = ab
-            okblock = (isinstance(a1, V.Opaque) and a1.tag == "colgather" and isinstance(a1.a[0], V.Opaque) and a1.a[0].tag == "gather"
-                       and isinstance(a1.a[0].a[0], V.Opaque) and a1.a[0].a[0].tag == "A"
-                       and V._same(a1.a[0].a[1], part) and V._same(a1.a[1], part) and a2 is None)
-        self.prove("yield: affinity block is A[part][:, part], None iff A is None", st.assm,
-                   z3.And(z3.BoolVal(bool(okblock)), cond == z3.Not(self.aff_none)) if cond is not None else False)
+            okblock = is_block(a1) and a2 is None
+            goal = z3.And(z3.BoolVal(bool(okblock)), cond == z3.Not(self.aff_none))
+        elif ab is None:
+            # one `yield` per branch of `if affinity_matrix is None`: on this branch the path condition must say that A is None
+            goal = self.aff_none
+        elif is_block(ab):
+            goal = z3.Not(self.aff_none)
+        else:
+            goal = z3.BoolVal(False)
+        self.prove("yield: affinity block is A[part][:, part], None iff A is None", st.assm, goal)
         st.ghost["cov"] = part.hi
         st.ghost["t"] = st.ghost["t"] + 1
 
